@@ -356,3 +356,95 @@ specialise(
     bounds="preceding section fixed per instance: field-list group, field-list repeat, table-list group, table-list repeat",
     weight=40,
 )
+
+
+# ---- d: question type table ------------------------------------------------------------------
+from spec.tables import QUESTION_TYPES  # noqa: E402
+
+SECOND = [2, 0, 17, 11]  # text, integer, select_one, image (indices into QUESTION_TYPES)
+
+
+def _type_row_ok(root, name, spec, label, appearance):
+    _t, tag, btype, cattrs, battrs = spec
+    path = "/data/" + name
+    prim = child_elements(elements(root, "instance")[0])[0]
+    if len([c for c in child_elements(prim) if c.tagName == name]) != 1:
+        return False
+    binds = [b for b in elements(root, "bind") if b.getAttribute("nodeset") == path]
+    if len(binds) != 1:
+        return False
+    b = binds[0]
+    want = dict(battrs)
+    want["nodeset"] = path
+    want["type"] = btype
+    got = {k: b.getAttribute(k) for k in b.attributes.keys()}
+    if got != want:
+        return False
+    body = [c for c in child_elements(root) if c.tagName == "h:body"][0]
+    ctrls = [e for e in elements(body) if e.getAttribute("ref") == path or e.getAttribute("nodeset") == path]
+    if tag is None:
+        return len(ctrls) == 0
+    if len(ctrls) != 1 or ctrls[0].tagName != tag:
+        return False
+    c = ctrls[0]
+    wantc = dict(cattrs)
+    wantc["ref"] = path
+    wantc["appearance"] = appearance
+    gotc = {k: c.getAttribute(k) for k in c.attributes.keys()}
+    if gotc != wantc:
+        return False
+    labels = [x for x in child_elements(c) if x.tagName == "label"]
+    return len(labels) == 1 and text_of(labels[0]) == label
+
+
+def c04_type_table(t: int, j: int, order: int, l0: int, a0: int, a1: int, b0: int) -> bool:
+    """
+    vpre: 0 <= j <= 3 and 0 <= order <= 1
+    vpre: 33 <= l0 <= 126 and l0 != 36
+    vpre: 97 <= a0 <= 122 and 97 <= a1 <= 122 and 97 <= b0 <= 122
+    vpost: _ == True
+    """
+    spec0 = QUESTION_TYPES[t]
+    spec1 = QUESTION_TYPES[SECOND[j]]
+    L0, L1 = S(l0, 66), S(67, l0)
+    A0, A1 = S(a0, a1), S(b0, 120)
+    r0 = {"type": spec0[0], "name": "q1", "label": L0, "appearance": A0}
+    r1 = {"type": spec1[0], "name": "q2", "label": L1, "appearance": A1}
+    rows = [r0, r1] if order == 0 else [r1, r0]
+    survey, _w, _js = build_survey({"survey": rows, "choices": M.CHOICES})
+    root = survey.xml()
+    prim = child_elements(elements(root, "instance")[0])[0]
+    names = [c.tagName for c in child_elements(prim)]
+    if names != ([r["name"] for r in rows] + ["meta"]):
+        return False
+    return _type_row_ok(root, "q1", spec0, L0, A0) and _type_row_ok(root, "q2", spec1, L1, A1) and M.closure_violation(root) is None
+
+
+specialise(
+    "C04",
+    "d.type-table",
+    c04_type_table,
+    {"t": list(range(len(QUESTION_TYPES))), "order": [0]},
+    reach_if=lambda fx: fx["t"] in (0, 11, 16, 19, 22),
+    timeout=300,
+    kernel=K + ("pyxform.question:InputQuestion.build_xml", "pyxform.question:UploadQuestion.build_xml", "pyxform.question:RangeQuestion.build_xml", "pyxform.question:TriggerQuestion.build_xml", "pyxform.question:MultipleChoiceQuestion.build_xml", "pyxform.survey_element:SurveyElement.xml_bindings"),
+    shims=("S1", "S2", "S3", "S4"),
+    symbolic="label tracer (1 symbolic character) and appearance cell (2 symbolic letters) of the typed row; a second row whose type is chosen by a symbolic index over {text, integer, select_one, image} with its own symbolic appearance; symbolic row order",
+    bounds="one row per documented question type / alias spelling (37 type cells from spec/tables.py QUESTION_TYPES, fixed per instance) + one neighbour row; control tag, control attribute set, bind attribute set, label and instance node compared with the independent table",
+    weight=30,
+)
+
+specialise(
+    "C04",
+    "d.type-table-rev",
+    c04_type_table,
+    {"t": list(range(len(QUESTION_TYPES))), "order": [1]},
+    tiers=("thorough",),
+    reach_if=lambda fx: fx["t"] in (0,),
+    timeout=300,
+    kernel=K + ("pyxform.question:InputQuestion.build_xml", "pyxform.question:UploadQuestion.build_xml", "pyxform.question:RangeQuestion.build_xml", "pyxform.question:TriggerQuestion.build_xml", "pyxform.question:MultipleChoiceQuestion.build_xml", "pyxform.survey_element:SurveyElement.xml_bindings"),
+    shims=("S1", "S2", "S3", "S4"),
+    symbolic="label tracer (1 symbolic character) and appearance cell (2 symbolic letters) of the typed row; a second row whose type is chosen by a symbolic index over {text, integer, select_one, image} with its own symbolic appearance; symbolic row order",
+    bounds="one row per documented question type / alias spelling (37 type cells from spec/tables.py QUESTION_TYPES, fixed per instance) + one neighbour row; control tag, control attribute set, bind attribute set, label and instance node compared with the independent table",
+    weight=30,
+)
